@@ -202,6 +202,16 @@ def run(ctx):
     ev1, ev2 = vlib.read_ndjson(e1), vlib.read_ndjson(e2)
     if len(ev1) != len(kept):
         raise Inconclusive('harness answered %d of %d cases' % (len(ev1), len(kept)))
+    # the generator keeps only texts the embedded parser accepts: every family of fq-overridden / beyond-the-core functions must still be there
+    fam = {'split': r'\bsplit\(', 'splits': r'\bsplits\(', 'test/match/capture/scan': r'\b(test|match|capture|scan)\(', 'sub/gsub': r'\bg?sub\(',
+           'format strings': r'@(base64|uri|csv|tsv|html|sh|json|text|base32)', 'update operators': r'(\|=|\+=|-=|\*=|//=)', 'tojson/fromjson': r'\b(tojson|fromjson)\b',
+           'paths/getpath': r'\b(paths|getpath|leaf_paths)\b', 'group/unique/min/max by': r'\b(group_by|unique_by|min_by|max_by)\(', 'limit/first/until': r'\b(limit|first|until)\(',
+           'big integers': r'\d{19,}', 'walk/env/tostream': r'\b(walk|env|tostream|input_filename)\b', 'explode/implode': r'\b(explode|implode)\b',
+           'ltrimstr/rtrimstr/case': r'\b(ltrimstr|rtrimstr|ascii_downcase|ascii_upcase)\b', 'to_entries family': r'\b(to_entries|from_entries|with_entries)\b'}
+    famn = {k: sum(1 for e in ev2 if re.search(rx, e['prog'])) for k, rx in fam.items()}
+    ctx.cov['generated_program_families'] = famn
+    if min(famn.values()) < 3:
+        raise Inconclusive('generated programs lack a family: %s' % {k: v for k, v in famn.items() if v < 3})
     evs = ev1 + ev2
     rcases = kept + [dict(prog=e['prog'], input=e['input'], inputs=e.get('inputs')) for e in ev2]
     rejects, drifts, cores = judge(ctx, evs, rcases)
